@@ -169,6 +169,7 @@ Section NumberFns.
             let '(correction, _) := modf (fmod intermed f_two) in
             let intermed := fadd intermed correction in
             if fltb fzero intermed then ffloor intermed else fceil intermed
+          else if feqb intermed (ftrunc intermed) then intermed   (* already an integer (repaired in /repo) *)
           else if fltb x fzero then fceil (fsub intermed f_half)
           else ffloor (fadd intermed f_half) in
         if feqb x' fzero then fzero
